@@ -144,6 +144,23 @@ def check_step(ctx: Ctx, fi: FuncInfo) -> Dict[str, str]:
             if helper is not None:
                 _check_wire_names(ctx, helper)
     if wn is None:
+        # the helper was inlined: a list built from the wire list, one element per wire, in order
+        def in_order_from(e) -> Optional[bool]:
+            core, par = q.reversal_parity(e)
+            if isinstance(core, ast.Name) and core.id == w:
+                return par == 0
+            if isinstance(core, (ast.ListComp, ast.GeneratorExp)) and len(core.generators) == 1 and not core.generators[0].ifs:
+                inner = in_order_from(core.generators[0].iter)
+                return None if inner is None else (inner == (par == 0))
+            return None
+
+        for s in loop.body:
+            if isinstance(s, ast.Assign) and isinstance(s.targets[0], ast.Name) and isinstance(s.value, (ast.ListComp,)):
+                o = in_order_from(s.value)
+                if o is not None:
+                    wn = s.targets[0].id
+                    ctx.check(o, "DP-WIRES", fi, "wire names in wire order", norm(s.value)[:60], "the per-wire symbol list is not built in wire order", s)
+    if wn is None:
         raise AnchorError(fi.short, "per-wire symbol list (wn = check_or_add(w)) not found")
     table = None
     chain_if = [s for s in loop.body if isinstance(s, ast.If)]
